@@ -371,6 +371,11 @@ func (g *gen) genBlock(bidx int, draining bool) {
 	}
 	if g.chance(g.p.WParams) {
 		ps := ParamsSpec{ExtPeriod: uint32(g.pickInt(0, 1, 2, 7, 1, 2, 365, 2000))}
+		if g.chance(0.06) {
+			// beyond the bound: must be refused when it is set (an end time millions of days later cannot be stored)
+			ps.ExtPeriod = uint32(g.pickInt(36501, 4000000, 4294967295))
+			g.intents["params_period_beyond_bound"]++
+		}
 		if g.chance(0.6) {
 			ps.CreationFee = []Coin{{"stake", fmt.Sprint(g.in(1, 100))}}
 		}
